@@ -19,12 +19,26 @@ function that builds the protocol with the caller's factory and hands it a fake 
   cancel    the caller cancels / times out the attempt: before any reply byte, or at the instant of the reader poll that follows the
             last reply bytes plus 0..5 loop turns (the window in which the reply is handed from the reader to the receive helper
             to `login()`), or via `asyncio.wait_for`
+  the connector's own parameters (every key optional; absent = the value all the families above use):
+  seq       the `sequence` the caller asks for (absent: the connector's default — 1 for soup, 0 = "whatever comes next" for the
+            application connectors); FIX: the MsgSeqNum of the logon message
+  acc_seq   the sequence number the acceptance states (equal to the requested one, or any other: the server no longer has / never had
+            the requested position); FIX: the MsgSeqNum of the logon response
+  sid / acc_sid   the session name asked for ('' = any) and the one the acceptance states;  user / pw
+  chb / shb the heartbeat intervals handed to the connector (None: the connector's defaults of 10 s)
+  on_close  False: no close callback;   mode = pull: no message callback
+  factory   itch/ouch/sqf (see above);  soup_factory: soup.connect_async gets the caller's `session_factory`;  ctimeout: `connect_timeout`
+  fixver    42 | 44 | 50: the FIX session class the caller's factory builds
 
 The oracle is the statement of C11: the attempt returns an active, logged-in session — login request written first, heartbeating
 started (a client heartbeat is written within two intervals of silence), no application message handed to a callback before the
 connector returned, piggy-backed data delivered afterwards in order — or raises `ConnectionRefusedError` / `ConnectionError` and
 leaves the session closed, the transport closed once, no task running, no exception unretrieved, nothing written afterwards; a
-cancellation / timeout of the caller propagates unchanged and likewise leaves nothing open or running.
+cancellation / timeout of the caller propagates unchanged and likewise leaves nothing open or running.  The leftovers of EVERY
+attempt that did not return a session are inspected, whatever made it fail: every connection the attempt opened is closed (session
+and transport), no library task is alive after settling, nothing is written and no callback runs from the moment the error was raised.
+An acceptance at another sequence number than a specific (non-zero) requested one may be taken either way — the unchanged connectors
+adopt it (C10) — but whichever way it is taken must be one of the two outcomes in full.
 """
 import asyncio
 import os
@@ -43,6 +57,24 @@ CONNECT_TIMEOUT = 0.05   # `connect_timeout` handed to the connectors that take 
 _DEFS = {}
 _ASN1_OK = None
 _FIXENV = {}
+
+
+_ABSENT = object()
+
+
+def P(sc):
+    """the connector parameters of a scenario, defaults filled in (the defaults are what every scenario used before the parameters
+    became part of the scenario: old replays and corpus entries mean what they meant)"""
+    kind = sc['kind']
+    p = {'user': sc.get('user', 'u'), 'pw': sc.get('pw', 'p'), 'sid': sc.get('sid', 's'), 'acc_sid': sc.get('acc_sid', 'sess'),
+         'seq': sc.get('seq'), 'acc_seq': sc.get('acc_seq', 1),
+         'chb': sc.get('chb', HB), 'shb': sc.get('shb', SERVER_HB), 'on_close': sc.get('on_close', True),
+         'ctimeout': sc.get('ctimeout', CONNECT_TIMEOUT), 'fixver': sc.get('fixver', 44)}
+    # what the login request on the wire must state
+    p['req_seq'] = p['seq'] if p['seq'] is not None else (1 if kind == 'soup' else 0)
+    # the effective client heartbeat interval (virtual seconds) the observation windows are scaled with
+    p['hb'] = p['chb'] if p['chb'] is not None else 10.0
+    return p
 
 
 def asn1_available():
@@ -143,6 +175,7 @@ def fix_frame(mtype, begin=b'FIX.4.4', seq=1):
 
 BAD_SOUP = [b'\x00\x01?', b'\x00\x00', b'\x00\x02Hx', b'\x00\x02JX', b'\x00\x03+\xff\xfe', b'\x00\x05A1234',
             b'\x00\x1fA' + b's' * 10 + b'x' * 20]
+FIX_BEGIN = {42: b'FIX.4.2', 44: b'FIX.4.4', 50: b'FIXT.1.1'}
 BAD_FIX = [b'8=FIX.4.4\x019=zz\x0135=L\x0110=000\x01', b'8=FIX.4.4\x019=5\x0135=?\x0110=000\x01']
 
 
@@ -150,19 +183,21 @@ BAD_FIX = [b'8=FIX.4.4\x019=zz\x0135=L\x0110=000\x01', b'8=FIX.4.4\x019=5\x0135=
 def reply_bytes(sc):
     """(bytes of the reply, is it a complete answer, is it the acceptance)"""
     r = sc['reply']
+    p = P(sc)
     if sc['kind'] == 'fix':
+        begin = FIX_BEGIN[p['fixver']]
         if r[0] == 'accept':
-            return fix_frame(b'L'), True, True
+            return fix_frame(b'L', begin=begin, seq=p['acc_seq']), True, True
         if r[0] in ('reject', 'debug', 'seq', 'unseq', 'eos'):
-            return fix_frame(b'N'), True, False          # any message other than the logon response
+            return fix_frame(b'N', begin=begin), True, False          # any message other than the logon response
         if r[0] == 'hb':
-            return fix_frame(b'0'), True, False           # FIX: a heartbeat *is* a message, and it is not the logon response
+            return fix_frame(b'0', begin=begin), True, False           # FIX: a heartbeat *is* a message, and it is not the logon response
         if r[0] == 'bad':
             return BAD_FIX[r[1] % len(BAD_FIX)], True, False
         return b'', False, False
     from nasdaq_protocols import soup
     if r[0] == 'accept':
-        return soup.LoginAccepted('sess', 1).to_bytes()[1], True, True
+        return soup.LoginAccepted(p['acc_sid'], p['acc_seq']).to_bytes()[1], True, True
     if r[0] == 'reject':
         return soup.LoginRejected(r[1]).to_bytes()[1], True, False
     if r[0] == 'debug':
@@ -183,7 +218,7 @@ def reply_bytes(sc):
 def data_frame(sc, n):
     """an application data frame carrying n (the token the consumer will report)"""
     if sc['kind'] == 'fix':
-        return fix_frame(b'0', seq=n)          # heartbeats: the FIX session under test has no other inbound message to decode
+        return fix_frame(b'0', begin=FIX_BEGIN[P(sc)['fixver']], seq=n)          # heartbeats: the FIX session under test has no other inbound message to decode
     from nasdaq_protocols import soup
     if sc['kind'] == 'soup':
         return soup.SequencedData(str(n).encode()).to_bytes()[1]
@@ -219,7 +254,9 @@ def run_attempt(sc):
     loop = VirtualLoop()
     ev = []              # ordered log: ['w', bytes] ['tclose'] ['msg', n] ['closecb'] ['ret', outcome] ['fed', k] ['eof'] ['cancel', pending]
     out = {'ev': ev}
-    created = {}
+    created = {'all': []}     # every connection the attempt opened: [(protocol, transport)]
+    p = P(sc)
+    hb = p['hb']
 
     class T(FakeTransport):
         def write(tself, data):
@@ -241,6 +278,7 @@ def run_attempt(sc):
         tr = T(loop)
         tr.protocol = proto
         created['proto'], created['tr'] = proto, tr
+        created['all'].append((proto, tr))
         proto.connection_made(tr)
         return tr, proto
 
@@ -267,35 +305,49 @@ def run_attempt(sc):
         ev.append(['closecb'])
 
     cb = sc['mode'] == 'callback'
+    msg_cb = on_msg if cb else None
+    close_cb = on_close if p['on_close'] else None
 
     def connector():
         remote = ('peer', 1)
+        # only what the scenario states is handed over: an absent `seq` / a `chb`,`shb` of None exercise the connector's defaults
+        kw = {}
+        if p['seq'] is not None:
+            kw['sequence'] = p['seq']
+        if p['chb'] is not None:
+            kw['client_heartbeat_interval'] = p['chb']
+        if p['shb'] is not None:
+            kw['server_heartbeat_interval'] = p['shb']
+        ident = (p['user'], p['pw'], p['sid'])
         if kind == 'soup':
             from nasdaq_protocols import soup
-            return soup.connect_async(remote, 'u', 'p', 's', on_msg_coro=on_msg if cb else None, on_close_coro=on_close,
-                                      client_heartbeat_interval=HB, server_heartbeat_interval=SERVER_HB, connect_timeout=CONNECT_TIMEOUT)
+            if sc.get('soup_factory'):
+                hbkw = {k: v for k, v in kw.items() if k != 'sequence'}
+                return soup.connect_async(remote, *ident, session_factory=lambda: soup.SoupClientSession(
+                    on_msg_coro=msg_cb, on_close_coro=close_cb, **hbkw), connect_timeout=p['ctimeout'],
+                    **{k: v for k, v in kw.items() if k == 'sequence'})
+            return soup.connect_async(remote, *ident, on_msg_coro=msg_cb, on_close_coro=close_cb, connect_timeout=p['ctimeout'], **kw)
         if kind == 'fix':
             env = fixenv()
             fix, fm = env['fix'], env['fm']
             m = fm.Login()
-            m.Username = 'user'
-            return fix.connect_async(remote, m, lambda: fix.Fix44Session(
-                on_msg_coro=on_msg if cb else None, on_close_coro=on_close,
-                client_heartbeat_interval=HB, server_heartbeat_interval=SERVER_HB))
+            m.Username = 'user' if 'user' not in sc else p['user']
+            if p['seq'] is not None:
+                m.Header.MsgSeqNum = p['seq']
+            scls = {42: fix.Fix42Session, 44: fix.Fix44Session, 50: fix.Fix50Session}[p['fixver']]
+            hbkw = {k: v for k, v in kw.items() if k != 'sequence'}
+            return fix.connect_async(remote, m, lambda: scls(on_msg_coro=msg_cb, on_close_coro=close_cb, **hbkw))
         cls = app_defs(kind)[0]
-        fac = lambda ss: cls(ss, on_msg_coro=on_msg if cb else None, on_close_coro=on_close)   # noqa: E731
+        fac = lambda ss: cls(ss, on_msg_coro=msg_cb, on_close_coro=close_cb)   # noqa: E731
         if kind == 'asn1':
             from nasdaq_protocols import asn1_app
-            return asn1_app.connect_async_soup(remote, 'u', 'p', 's', fac, client_heartbeat_interval=HB,
-                                               server_heartbeat_interval=SERVER_HB)
+            return asn1_app.connect_async_soup(remote, *ident, fac, **kw)
         from nasdaq_protocols import itch, ouch, sqf
         impl = {'itch': itch, 'ouch': ouch, 'sqf': sqf}[kind]
         if not sc.get('factory', True):
             # the connector's own `ClientSession(soup_session, on_msg_coro=…, on_close_coro=…)` branch
-            return impl.connect_async(remote, 'u', 'p', 's', on_msg_coro=on_msg if cb else None, on_close_coro=on_close,
-                                      client_heartbeat_interval=HB, server_heartbeat_interval=SERVER_HB, connect_timeout=CONNECT_TIMEOUT)
-        return impl.connect_async(remote, 'u', 'p', 's', session_factory=fac, client_heartbeat_interval=HB,
-                                  server_heartbeat_interval=SERVER_HB, connect_timeout=CONNECT_TIMEOUT)
+            return impl.connect_async(remote, *ident, on_msg_coro=msg_cb, on_close_coro=close_cb, connect_timeout=p['ctimeout'], **kw)
+        return impl.connect_async(remote, *ident, session_factory=fac, connect_timeout=p['ctimeout'], **kw)
 
     async def attempt():
         try:
@@ -310,6 +362,7 @@ def run_attempt(sc):
             out['active_at_return'] = bool(inner.is_active()) and not inner.is_closed()
             out['monitors'] = [inner._local_hb_monitor is not None and inner._local_hb_monitor.is_running(),
                                inner._remote_hb_monitor is not None and inner._remote_hb_monitor.is_running()]
+            out['wraps'] = inner is created.get('proto')          # the session handed back is the one that logged in
             r = 'session'
         except asyncio.CancelledError:
             r = 'cancelled'
@@ -401,7 +454,7 @@ def run_attempt(sc):
         out['returned'] = task.done()
         if not task.done():
             task.cancel()
-            await asyncio.sleep(HB)
+            await asyncio.sleep(hb)
         k_ret = len(ev)
         out['k_ret'] = next((i for i, e in enumerate(ev) if e[0] == 'ret'), k_ret)
         proto, tr = created.get('proto'), created.get('tr')
@@ -410,7 +463,7 @@ def run_attempt(sc):
             s = out['session']
             inner = s if kind in ('soup', 'fix') else s.soup_session
             w0 = len(ev)
-            await asyncio.sleep(2.5 * HB)                    # silence: the local monitor must send a heartbeat
+            await asyncio.sleep(2.5 * hb)                    # silence: the local monitor must send a heartbeat
             out['hb_written'] = any(e[0] == 'w' for e in ev[w0:])
             out['open_after_silence'] = not inner.is_closed()
             # pull mode: what was piggy-backed is waiting in the queue, in order
@@ -434,18 +487,23 @@ def run_attempt(sc):
                     except Exception as e:   # noqa
                         out['post'] = 'raised:' + err_name(e)
                 try:
-                    await asyncio.wait_for(s.close(), 50 * HB)
+                    await asyncio.wait_for(s.close(), 50 * hb)
                     out['close'] = 'ok'
                 except Exception as e:   # noqa
                     out['close'] = 'raised:' + err_name(e)
         # the attempt has returned (and a returned session was closed): a close that is still under way — the closing task of a
         # disconnect finishes after `login()` has raised — gets one heartbeat interval to complete; then three intervals of silence
-        await asyncio.sleep(HB)
+        await asyncio.sleep(hb)
         k_end = len(ev)
-        await asyncio.sleep(3 * HB)
+        await asyncio.sleep(3 * hb)
         out['late'] = [e for e in ev[k_end:] if e[0] in ('w', 'msg', 'closecb', 'tclose')]
         out['closed'] = (proto.is_closed() if proto is not None else None)
         out['tcloses'] = len(tr.closes) if tr is not None else 0
+        # the leftovers of every connection the attempt opened (one, unless the connector under test opens more)
+        out['connections'] = [{'closed': bool(pr.is_closed()), 'tcloses': len(t.closes), 'writes': len(t.writes)} for pr, t in created['all']]
+        # what happened from the moment the attempt's result was known to its caller
+        k = out['k_ret']
+        out['after_ret'] = [e for e in ev[k + 1:] if e[0] in ('w', 'msg')]
         out['alive'] = sorted(t.get_name() for t in loop.tasks_created if not t.done() and not t.get_name().startswith('H:'))
         bad = []
         for t in loop.tasks_created:
@@ -465,10 +523,20 @@ def run_attempt(sc):
 
 # ------------------------------------------------------------------ the oracle (statement of C11, on the implementation alone)
 def login_request_ok(sc, first):
+    p = P(sc)
     if sc['kind'] == 'fix':
-        return first.startswith(b'8=FIX.4.4\x01') and b'\x0135=L\x01' in first
+        ok = first.startswith(b'8=' + FIX_BEGIN[p['fixver']] + b'\x01') and b'\x0135=L\x01' in first
+        if p['seq'] is not None:
+            ok = ok and (b'\x0134=' + str(p['seq']).encode() + b'\x01') in first
+        return ok
     from nasdaq_protocols import soup
-    return first == soup.LoginRequest('u', 'p', 's', '0' if sc['kind'] != 'soup' else '1').to_bytes()[1]
+    return first == soup.LoginRequest(p['user'], p['pw'], p['sid'], str(p['req_seq'])).to_bytes()[1]
+
+
+def seq_mismatch(sc):
+    """the caller asked for one specific position of the stream and the acceptance states another one"""
+    p = P(sc)
+    return sc['kind'] != 'fix' and p['req_seq'] > 0 and p['acc_seq'] != p['req_seq']
 
 
 def oracle(sc, out):
@@ -502,6 +570,10 @@ def oracle(sc, out):
         allowed = {'timeout'}
     elif reply_delivered and accept:
         allowed = {'session'} if eof is None else {'session', 'refused'}
+        if seq_mismatch(sc):
+            # accepted, but not at the position asked for: adopting it (what the unchanged connectors do, C10) and refusing it are
+            # both within the statement — each with everything the statement attaches to that outcome
+            allowed = {'session', 'refused'}
     elif reply_delivered and not accept:
         allowed = {'refused'}
     elif eof is not None:
@@ -525,6 +597,8 @@ def oracle(sc, out):
             v.append('the connector returned a session that is not active (closed or closing)')
         if not all(out.get('monitors', [False, False])):
             v.append(f'the connector returned a session whose heartbeat monitors are not running {out.get("monitors")}')
+        if out.get('wraps') is False:
+            v.append('the session the connector returned is not (a wrapper of) the session that logged in over the connection it opened')
         if out.get('open_after_silence'):
             if not out.get('hb_written'):
                 v.append('logged in, 2.5 heartbeat intervals of silence, and no heartbeat was written: heartbeating not started')
@@ -546,7 +620,16 @@ def oracle(sc, out):
             v.append(f'attempt ended with {r} but the session was left open')
         if out.get('had_session_object') and out.get('tcloses', 0) < 1:
             v.append(f'attempt ended with {r} but the transport was never closed')
+        if out.get('after_ret'):
+            e = out['after_ret'][0]
+            v.append(f'attempt ended with {r}, and afterwards ' + (f'{e[1][:8]!r} was still written to the peer' if e[0] == 'w'
+                     else f'message {e[1]} was still handed to the callback'))
     # ---- nothing left open or running, silence afterwards (both outcomes: the returned session was closed by the scenario)
+    # (a connector that opens more than one connection: the ones before the last are nobody's but the attempt's to close)
+    for i, cn in enumerate(out.get('connections', [])[:-1]):
+        if not cn['closed'] or cn['tcloses'] < 1:
+            v.append(f'attempt ended with {r}; connection #{i + 1} of the {len(out["connections"])} it opened was left '
+                     + ('open' if not cn['closed'] else 'with its transport never closed'))
     if out.get('tcloses', 0) > 1:
         v.append(f'transport closed {out["tcloses"]} times')
     if out.get('closed') is True or r != 'session':
